@@ -550,10 +550,37 @@ fn ep_c09(s: &mut S, r: &mut Rng, maxc: usize, maxr: usize) {
 
 // ---------------------------------------------------------------------------------- C10
 
+/// A buffer with more than a thousand rows whose soft-wrapped lines straddle every possible block boundary
+/// around row 1024, then width changes (anything that re-wraps in blocks or pages must not cut a line).
+fn ep_c10_big(s: &mut S, r: &mut Rng) {
+    s.episode("C10");
+    let cols = 10;
+    let slot = s.new_vt(cols, 4, -1);
+    let mut text = String::new();
+    for i in 0..(1000 + r.range(0, 3)) {
+        text.push_str(&format!("{}\r\n", i % 10));
+    }
+    for i in 0..24 {
+        let ch = (b'A' + (i % 26) as u8) as char;
+        let long: String = std::iter::repeat(ch).take(cols + 5).collect();
+        text.push_str(&long);
+        text.push_str("\r\n");
+    }
+    s.feed_str(slot, &text, true);
+    s.feed_str(slot, "\x1b[2;3H", true);
+    let nc = *r.pick(&[20usize, 7, 12, 5]);
+    s.resize(slot, nc, 4, true);
+    s.resize(slot, cols, 5, true);
+}
+
 fn ep_c10(s: &mut S, r: &mut Rng, maxc: usize, maxr: usize) {
     s.episode("C10");
     let (c, rr) = gen::size(r, maxc, maxr);
     let slot = s.new_vt(c, rr, -1);
+    if r.chance(1, 2) {
+        // modes and margins that cursor translation must ignore (origin mode, a region below the first row)
+        prelude(s, r, slot);
+    }
     let wt = w(|x| {
         x.alt = 0;
         x.ris = 0;
@@ -1397,6 +1424,7 @@ pub fn run(args: &Args) -> i32 {
                 (1, 30),
             ),
             "C09" => ep_c09(&mut s, &mut r, maxc, maxr),
+            "C10" if s.episodes == 0 && maxc < 20 => ep_c10_big(&mut s, &mut r),
             "C10" => ep_c10(&mut s, &mut r, maxc, maxr),
             "C11" => ep_c11(&mut s, &mut r, maxc, maxr),
             "C12" => ep_c12(&mut s, &mut r, maxc, maxr),
